@@ -21,7 +21,7 @@ def histories(rng, tier):
             hs.append((0, [("with", n, st), ("dump",), ("probs",), ("sample", 0), ("polar",), ("vreglen",)]))
     hs.append((0, [("new", 0), ("dump",), ("probs",), ("polar",), ("vreglen",)]))
     # tensor chains
-    for _ in range(60 if tier == "quick" else 400):
+    for _ in range(60 if tier == "quick" else 2500):
         n = rng.randint(0, 3)
         acts = [("raw", n, rand_small_state(rng, n)), ("dump",)]
         if rng.random() < 0.4:
@@ -34,7 +34,7 @@ def histories(rng, tier):
             acts += [("dump",), ("probs",)]
         hs.append((0, acts))
     # grow / shrink sequences
-    for _ in range(40 if tier == "quick" else 300):
+    for _ in range(40 if tier == "quick" else 2000):
         n = rng.randint(0, 4)
         acts = [("raw", n, rand_small_state(rng, n)), ("dump",)]
         for _ in range(rng.randint(1, 8)):
